@@ -207,8 +207,29 @@ let line l =
   Printf.sprintf "%s\tWF %s\tSK %s\tPV %s\tSD %s\tSN %d\tSKD %s\tMD %s\tDS %s\tPS %s%s" out (b01 wf) sk pv (b01 sd) sn skd
     (b01 md) (b01 ds) (b01 ps) tt
 
+(* mode `c12` (fourth audit): a line is `<irdump::cfg before into_ssa>\t<irdump::cfg after into_ssa | ->`, the two REAL
+   graphs printed by the harness (mode `c12`).  Output: the extracted decisions of Model.IrCfgCheck / Model.SsaPre
+     PF <0|1>            SsaPre.phi_free of the graph before (hypothesis of C12_ssa_blocks_are_phis_then_image / _ssa_keeps_wf)
+     WFB <0|1> <bits>    IrCfgCheck.cfg_wf_b of the graph before, and its eight clauses in order
+     WFA <0|1|-> <bits>  the same of the graph after
+     SH <0|1|->          IrCfgCheck.ssa_shape_b before after (IrCfgSpec.ssa_shape_of) *)
+let c12_line l =
+  match Stdlib.String.split_on_char '\t' l with
+  | [pre; post] ->
+    let rd t = Lib_irwire.r_cfg (Lib_irwire.parse_sexp t) in
+    let bits c = cat "" (Stdlib.List.map b01 (IrCfgCheck.cfg_wf_clauses c)) in
+    let c = rd pre in
+    let after = if Stdlib.String.trim post = "-" then None else Some (rd post) in
+    Printf.sprintf "PF %s\tWFB %s %s\tWFA %s\tSH %s" (b01 (SsaPre.phi_free c)) (b01 (IrCfgCheck.cfg_wf_b c)) (bits c)
+      (match after with Some c' -> b01 (IrCfgCheck.cfg_wf_b c') ^ " " ^ bits c' | None -> "- -")
+      (match after with Some c' -> b01 (IrCfgCheck.ssa_shape_b c c') | None -> "-")
+  | _ -> "(driver-error c12: two tab-separated fields expected)"
+
 let () =
   (match Array.to_list Sys.argv with
    | _ :: "tt" :: n :: _ -> tt_bound := Some (int_of_string n)
    | _ -> ());
+  if (match Array.to_list Sys.argv with _ :: "c12" :: _ -> true | _ -> false) then
+    each_line (fun l -> try c12_line l with Failure m -> "(driver-error " ^ m ^ ")" | Not_found -> "(driver-error not-found)")
+  else
   each_line (fun l -> try line l with Failure m -> "(driver-error " ^ m ^ ")" | Not_found -> "(driver-error not-found)")
